@@ -238,11 +238,20 @@ func crashSig(log string) (sig, line string, ok bool) {
 		return "", "", false
 	}
 	idx := strings.Index(log, m)
-	fr := frameRe.FindStringSubmatch(log[idx:])
-	frame := "?"
-	if fr != nil {
-		frame = fr[1]
+	// the goroutine that crashed is the first block after the message; the
+	// crash counts against the library only if that block has library frames
+	blk := log[idx:]
+	if g := strings.Index(blk, "\ngoroutine "); g >= 0 {
+		blk = blk[g+1:]
+		if e := strings.Index(blk, "\n\n"); e >= 0 {
+			blk = blk[:e]
+		}
 	}
+	fr := frameRe.FindStringSubmatch(blk)
+	if fr == nil {
+		return "", m, false
+	}
+	frame := fr[1]
 	ml := m
 	if len(ml) > 80 {
 		ml = ml[:80]
